@@ -7,7 +7,8 @@ from . import c06_t0
 
 RULE = ("pure part: path templates from the corpus, from a grammar of the AIP class (0-3 unnamed segments before/after, a named "
         "sub-template of 1-4 segments, literals / * / trailing **, {key} shorthand, empty literals) and from an off-class grammar "
-        "(inner **, dotted and metacharacter literals, 0 or 2 named segments, complex segments, broken braces); per template "
+        "(inner **, '=' or braces in literals, 0 or 2 named segments, complex segments, broken braces); literals with regex "
+        "metacharacters are in the class; per template "
         "instances, near misses (delete/insert/substitute/truncate/extra or missing segment), the empty string, values with "
         "spaces, percent signs, unicode, '/' and newlines. One case = one (template, value) pair, distinct by canonical JSON, "
         "non-trivial when the template has a named segment. Implicit part: structured http path templates (0-3 variables, dotted and "
@@ -18,10 +19,10 @@ RULE = ("pure part: path templates from the corpus, from a grammar of the AIP cl
 TRUSTED = [
     "Model/Routing.v: hand-written model of RoutingParameter._convert_to_regex/_split_into_segments/_convert_segment_to_regex/"
     "_merge_segments/key, Method.field_headers, FieldHeader.disambiguated, the create_metadata macro, and of Python re.match on the "
-    "emitted regex class (plain text, '.', [^/]+, .*, (?:/.*)?, one named group, '$' before a final newline)",
+    "emitted regex class (re.escape'd literal text, [^/]+, .*, (?:/.*)?, one named group, '$' before a final newline)",
     "contract: Python's re behaves as Model/Routing.v rmatch says on that class (validated on every run by T2 against re itself)",
     "contract: google.api_core.gapic_v1.routing_header.to_routing_header = '&'.join(quote_plus(k,'/')+'='+quote_plus(v,'/')) "
-    "(validated on every run by T2); CPython formats re.Pattern reprs with %.200R",
+    "(validated on every run by T2); re.escape escapes exactly re._special_chars_map (validated on every run over all of ASCII)",
     "contract: the REST transport sends dict(metadata) as HTTP headers, the gRPC transports send the tuple as it is (observed end to end)",
     "harness/gv/impl/routing.py, the ast readers of wrappers.py (T0) and of emitted client.py / async_client.py (T1), "
     "harness/gv/props/c06_gen.py (independent AIP-4222 reference: parser, segment matcher, encoder)",
@@ -42,16 +43,18 @@ def param_term(field, template):
 
 
 def supported_py(tm):
-    return tm is not None and G.is_ident(tm["key"]) and all(
-        all(G.lit_char_ok(ch) or ch == "." for ch in s) for s in tm["pre"] + tm["sub"] + tm["post"] if G.seg_kind(s) == "lit")
+    return tm is not None and G.is_ident(tm["key"])
 
 
 # ====================================================================== pure part
-def run_pure(ctx, templates, nvals, tag="pure"):
-    payload = {"templates": [], "https": [], "raws": [], "headers": [], "splits": [], "reprs": []}
+def run_pure(ctx, templates, nvals, tag="pure", extra=None):
+    """extra: {template: [values that must be among the tried ones]} (corpus witnesses)."""
+    payload = {"templates": [], "https": [], "raws": [], "headers": [], "splits": [], "escapes": []}
     for i, t in enumerate(templates):
         r = env.rng("C06-vals", i)
-        payload["templates"].append({"template": t, "field": r.choice(["fld", "class", "sub.type", "a.b.c"]), "values": G.values_for(r, t, nvals)})
+        vals = G.values_for(r, t, nvals)
+        vals += [v for v in (extra or {}).get(t, []) if v not in vals]
+        payload["templates"].append({"template": t, "field": r.choice(["fld", "class", "sub.type", "a.b.c"]), "values": vals})
     # implicit: http rules
     uris = []
     for i in range(ctx.n(40, 400)):
@@ -76,7 +79,8 @@ def run_pure(ctx, templates, nvals, tag="pure"):
              for _ in range(r.randint(1, 4))]
         payload["headers"].append(d)
         payload["splits"].append([r.choice("/=."), "".join(r.choice("ab/=.") for _ in range(r.randint(0, 8)))])
-        payload["reprs"].append("".join(r.choice("ab'\"\\/^$") for _ in range(r.randint(0, 12))))
+        payload["escapes"].append("".join(r.choice(G.SEGCHARS + G.ODDCHARS + "\n\r\x0b\x0c\x00\x7f") for _ in range(r.randint(0, 10))))
+    payload["escapes"] += [chr(i) for i in range(128)] + ["é", "日本"]
     out = gen.impl("routing", payload)
 
     checks, deferred = [], []
@@ -115,9 +119,6 @@ def run_pure(ctx, templates, nvals, tag="pure"):
         checks.append((f"{t!r}: key", f"match convert_to_regex {T} with Ok r => String.eqb (key_of {coq.s(field)} r) {coq.s(o['key'])} | Err _ => false end"))
         checks.append((f"{t!r}: attr", f"String.eqb (disambiguated {coq.s(field)}) {coq.s(o['attr'])}"))
         checks.append((f"{t!r}: sample_request raises or not", f"Bool.eqb (sample_request_ok {T}) {coq.b(not isinstance(o['sample_request'], dict))}"))
-        checks.append((f"{t!r}: len(repr(pattern))", f"Nat.eqb (py_repr_len {coq.s(o['pattern'])}) {len(repr(o['pattern']))}"))
-        truncated = not (o["repr"] or "").endswith("')") and not (o["repr"] or "").endswith('")')
-        checks.append((f"{t!r}: repr fits", f"Bool.eqb (repr_fits {coq.s(o['pattern'])}) {coq.b(not truncated)}"))
         sup = supported_py(tm)
         if incl:
             TM = G.tmpl_term(tm)
@@ -158,8 +159,6 @@ def run_pure(ctx, templates, nvals, tag="pure"):
                         ctx.violation(what, case)
                     elif incl:
                         deferred.append((what, case, "routing.newline_value"))
-                    elif G.why_off_class(tm) == "dotted-literal" and "\n" not in v:
-                        deferred.append((what, case, "routing.unescaped_literal"))
                     else:
                         ctx.features["off-class disagreement (" + G.why_off_class(tm) + ")"] += 1
 
@@ -192,11 +191,11 @@ def run_pure(ctx, templates, nvals, tag="pure"):
     for (sep, s), pieces in zip(payload["splits"], out["splits"]):
         checks.append((f"split {s!r} on {sep!r}",
                        f"list_eqb String.eqb (splitc (chr {ord(sep)}%N) {coq.s(s)}) {coq.slist(pieces)}"))
-    for s, n in zip(payload["reprs"], out["reprs"]):
-        checks.append((f"len(repr({s!r}))", f"Nat.eqb (py_repr_len {coq.s(s)}) {n}"))
+    for s, e in zip(payload["escapes"], out["escapes"]):
+        checks.append((f"re.escape({s!r})", f"String.eqb (re_escape {coq.s(s)}) {coq.s(e)}"))
     failing, errors, nfiles = coq.eval_checks("c06" + tag, IMPORTS, "", checks)
     ctx.oblige(f"T2 model = implementation on {len(checks)} evaluations (regex text, key, attribute, re.match, emitted block, "
-               f"field_headers, disambiguated, urlencode, split, repr length; reference matcher = Gallina matcher) in {nfiles} cases files",
+               f"field_headers, disambiguated, urlencode, split, re.escape; reference matcher = Gallina matcher) in {nfiles} cases files",
                not failing and not errors, "; ".join((failing + errors)[:8]))
     ctx.notes[tag + "_checks"] = len(checks)
     ctx.notes[tag + "_disagreements"] = failing[:20]
@@ -242,14 +241,16 @@ def gen_methods(r, n):
     for j in range(n):
         name = "Route" + "ABCDEFGHIJKLMNOP"[j]
         x = r.random()
-        if x < 0.6:
+        if x < 0.06:      # an annotation without parameters: no header, not even the implicit one
+            out.append({"name": name, "kind": "explicit", "params": [], "http": ("post", "/v1/{name=**}:empty" + str(j)), "body": "*"})
+        elif x < 0.6:
             params, keys = [], []
             for _ in range(r.choice([1, 1, 2, 2, 3, 4])):
                 field = r.choice(FIELD_PATHS)
                 if r.random() < 0.25:
                     params.append((field, None))
                     continue
-                t = G.gen_class_template(r, allow_short=False)     # the {key} shorthand stops the generator (known finding)
+                t = G.gen_class_template(r)
                 if keys and r.random() < 0.5:      # several parameters sharing a key
                     tm = G.parse_template(t)
                     t = t.replace("{" + tm["key"], "{" + r.choice(keys), 1)
@@ -288,9 +289,11 @@ def get_path(msg, path):
 
 def gen_requests(r, m, n):
     """Field valuations {path: value} for one method."""
-    reqs = [{}]
+    reqs = [{}] + [dict(x) for x in m.get("requests", [])]
     for _ in range(n):
         vals = {}
+        if m["kind"] == "explicit" and not m["params"]:
+            vals["name"] = r.choice(["x", "shelves/s1", "a b"])
         if m["kind"] == "explicit":
             for field, t in m["params"]:
                 if field in vals and r.random() < 0.6:
@@ -608,71 +611,40 @@ def run_e2e(ctx, n_apis, nreq, reserved, tag="e2e", fixed=None):
     return failing, deferred
 
 
-# ====================================================================== known finding classes: witnesses replayed on the implementation
-LONG_TEMPLATE = "{table_name=" + "/".join(["projects/*"] * 14) + "}"
-
-
-def run_witnesses(ctx, reserved):
-    """The witnesses of the _refuted lemmas and of the truncated pattern repr, on the real code."""
+# ====================================================================== known finding class: witnesses replayed on the implementation
+def run_witnesses(ctx):
+    """The witnesses of C06_newline_refuted / C06_newline_final_refuted on the real code (known finding routing.newline_value)."""
     deferred = []
-    out = gen.impl("routing", {"templates": [
-        {"template": "{k=**}", "field": "f", "values": ["a\nb", "a\n"]},
-        {"template": "a.b/{k=*}", "field": "f", "values": ["aXb/c"]},
-        {"template": LONG_TEMPLATE, "field": "f", "values": []}]})
-    t = out["templates"]
-    for v, m in zip(["a\nb", "a\n"], t[0]["matches"]):
+    out = gen.impl("routing", {"templates": [{"template": "{k=**}", "field": "f", "values": ["a\nb", "a\n"]}]})
+    for v, m in zip(["a\nb", "a\n"], out["templates"][0]["matches"]):
         impl_c = tuple(m["contribution"][0]) if m.get("contribution") else None
         spec = ("k", v)
         ctx.case({"witness": "newline", "value": v}, feature=["witness"])
         if impl_c != spec:
             deferred.append((f"routing parameter '{{k=**}}': field value {v!r} contributes {impl_c}, AIP-4222 says {spec}",
                              {"template": "{k=**}", "field": "f", "value": v, "implementation": impl_c, "aip_4222": spec}, "routing.newline_value"))
-    m = t[1]["matches"][0]
-    impl_c = tuple(m["contribution"][0]) if m.get("contribution") else None
-    ctx.case({"witness": "unescaped literal"}, feature=["witness"])
-    if impl_c is not None:
-        deferred.append((f"routing parameter 'a.b/{{k=*}}': field value 'aXb/c' contributes {impl_c}; the literal segment 'a.b' does not match 'aXb'",
-                         {"template": "a.b/{k=*}", "field": "f", "value": "aXb/c", "implementation": impl_c, "aip_4222": None}, "routing.unescaped_literal"))
-    # whole-generator witnesses: the model says what the generator does with them (error or emitted block)
-    wits = [
-        ("long template", [{"name": "RouteA", "kind": "explicit", "params": [("table_name", LONG_TEMPLATE)], "http": ("post", "/v1/m:route"), "body": "*"}],
-         "routing.regex_repr_truncated",
-         "routing path template whose regex is longer than 200 characters: the emitted client.py is not Python (re.Pattern repr is cut)"),
-        ("shorthand", [{"name": "RouteA", "kind": "explicit", "params": [("name", "{name}")], "http": ("post", "/v1/m:route"), "body": "*"}],
-         "routing.shorthand_named_segment",
-         "routing path template '{name}' (shorthand for '{name=*}', accepted by to_regex): the generator stops with ValueError in sample_request"),
-        ("empty annotation", [{"name": "RouteA", "kind": "explicit", "params": [], "http": ("post", "/v1/{name=**}:route"), "body": "*"}],
-         "routing.empty_annotation",
-         "google.api.routing annotation without parameters (AIP-4222: 'no routing header'): the generator stops with jinja2 UndefinedError"),
-    ]
-    checks, healthy = [], []
-    for label, methods, sig, what in wits:
-        req, _ = build_api(env.rng("C06-wit"), methods)
-        res, err = gen.run_generator(req)
-        ctx.case({"witness": label, "methods": methods}, feature=["witness"])
-        M = method_term(methods[0])
-        case = {"witness": label, "methods": methods, "request_b64": apigen.req_b64(req)}
-        if res is None:
-            kind = gen.error_kind(err)
-            e = {"ValueError": "EValue", "UndefinedError": "EUndef", "AssertionError": "EAssert", "IndexError": "EIndex"}.get(kind)
-            checks.append((f"{label}: generator raises {kind}", f"res_eqb emitted_eqb (emit_metadata {M}) (Err {e})" if e else "false"))
-            deferred.append((what + f" [{kind}]", case, sig))
-            continue
-        src = gen.files_of(res).get("google/example/library_v1/services/router/client.py", "")
-        try:
-            ast.parse(src)
-        except SyntaxError as e:
-            checks.append((f"{label}: emitted client is not Python", f"res_eqb emitted_eqb (emit_metadata {M}) (Err ETrunc)"))
-            deferred.append((what + f" [{e.msg} at line {e.lineno}]", case, sig))
-            continue
-        healthy.append(methods)      # no longer failing: the model must agree, and the library is driven like any other
-    failing, errors, _ = coq.eval_checks("c06wit", IMPORTS, "", checks)
-    ctx.oblige(f"T2 generator-level witnesses ({len(checks)}): model's emit_metadata error = what the generator did", not failing and not errors,
-               "; ".join(failing + errors))
-    if healthy:
-        _, d = run_e2e(ctx, len(healthy), 4, reserved, tag="healed", fixed=healthy)
-        deferred += d
     return deferred
+
+
+def load_corpus():
+    """corpus/C06/*.json: former failing inputs (fixed upstream) that run first, so that a regression is reported."""
+    d = os.path.join(env.VERIF, "corpus", "C06")
+    e2e, pure, requests = [], {}, {}
+    for f in sorted(os.listdir(d)) if os.path.isdir(d) else []:
+        if not f.endswith(".json"):
+            continue
+        c = json.load(open(os.path.join(d, f)))
+        if c.get("kind") == "e2e":
+            for m in c["methods"]:
+                m["params"] = [tuple(p) for p in m["params"]]
+                m["http"] = tuple(m["http"])
+            if c.get("requests"):
+                for m in c["methods"]:
+                    m["requests"] = c["requests"]
+            e2e.append(c["methods"])
+        elif c.get("kind") == "pure":
+            pure.setdefault(c["template"], []).extend(c.get("values", []))
+    return e2e, pure
 
 
 # ====================================================================== entry points
@@ -693,10 +665,11 @@ def corpus_methods():
         {"name": "RouteC", "kind": "explicit", "params": [("app_profile_id", None), ("table_name", "{routing_id=projects/*}/**"),
                                                           ("table_name", "projects/*/{routing_id=instances/*}/**"), ("name", "{routing_id=regions/*}/**")],
          "http": ("post", "/v1/c:route"), "body": "*"},
+        {"name": "RouteD", "kind": "explicit", "params": [], "http": ("post", "/v1/{name=**}:route"), "body": "*"},
         {"name": "RouteE", "kind": "none", "params": [], "http": ("post", "/v1/e:plain"), "body": "*"},
         {"name": "RouteG", "kind": "implicit", "params": [], "http": ("post", "/v1/{name=**}:up"), "body": "*", "vars": ["name"], "cs": True},
         {"name": "RouteH", "kind": "explicit", "params": [("name", "{k=**}"), ("parent", None)], "http": ("post", "/v1/h:up"), "body": "*", "cs": True},
-        {"name": "RouteF", "kind": "explicit", "params": [("name", "x/{k=**}"), ("parent", "{k=*}"), ("resource", "a/{j=b/*/c}/d/*")],
+        {"name": "RouteF", "kind": "explicit", "params": [("name", "x/{k=**}"), ("parent", "{k}"), ("resource", "a.b/{j=b/*/c+d}/d/*")],
          "http": ("post", "/v1/f:route"), "body": "*"},
     ]
     return [a]
@@ -716,18 +689,20 @@ def run(ctx):
     if "t0" not in ctx.notes:
         ctx.notes["t0"] = c06_t0.extract()
     deferred = []
-    # corpus first
-    _, d = run_e2e(ctx, 1, 4, reserved, tag="corpus", fixed=corpus_methods())
+    # corpus first: the in-code API and corpus/C06/*.json (former findings, fixed upstream)
+    c_e2e, c_pure = load_corpus()
+    fixed = corpus_methods() + c_e2e
+    _, d = run_e2e(ctx, len(fixed), 4, reserved, tag="corpus", fixed=fixed)
     deferred += d
-    templates = list(G.CORPUS_TEMPLATES)
+    templates = list(c_pure) + list(G.CORPUS_TEMPLATES)
     for i in range(ctx.n(70, 900)):
         r = env.rng("C06-tmpl", i)
         templates.append(G.gen_class_template(r) if r.random() < 0.65 else G.gen_offclass_template(r))
-    _, d = run_pure(ctx, templates, ctx.n(3, 5))
+    _, d = run_pure(ctx, templates, ctx.n(3, 5), extra=c_pure)
     deferred += d
     _, d = run_e2e(ctx, ctx.n(5, 60), ctx.n(3, 5), reserved)
     deferred += d
-    deferred += run_witnesses(ctx, reserved)
+    deferred += run_witnesses(ctx)
     flush(ctx, deferred)          # known finding classes last, one per signature
 
 
